@@ -57,7 +57,8 @@ def strategy_reader(draw, tier):
     for i in range(draw(st.integers(0, 3))):
         attrs.append({
             "name": f"a{i}",
-            "dtype": draw(st.sampled_from(dsops.NUMERIC_FB)),
+            "dtype": draw(st.sampled_from(dsops.NUMERIC_FB +
+                                          [">i4", ">f8", ">u2", "<i8"])),
             "shape": draw(st.sampled_from(SHAPES))
         })
     size = st.one_of(st.integers(1, 3), st.integers(1, 30),
